@@ -158,6 +158,9 @@ MUTANTS = [
     {"name": "string-length-bounds-swapped", "expect": "R4.2", "edits": [(C, "            length_regex = f\"{{{int(minlength)},{maxlength_value}}}\"", "            length_regex = f\"{{{maxlength_value},{int(minlength)}}}\"")]},
     {"name": "base-converter-does-not-quote", "expect": "R4.2", "edits": [(C, _CONV_QUOTE, "        return str(value)")]},
     {"name": "any-converter-returns-the-member-unquoted", "expect": "R4.2", "edits": [(C, "            return super().to_url(value)", "            return str(value)")]},
+    {"name": "text-value-lower-cased-before-quoting", "expect": "R4.2", "edits": [(C, _CONV_QUOTE, "        return quote(str(value).lower(), safe=" + _SAFE + ")")]},
+    {"name": "text-value-nfkc-normalised-before-quoting", "expect": "R4.2", "edits": [(C, "import re\nimport typing as t\n", "import re\nimport typing as t\nimport unicodedata\n"), (C, _CONV_QUOTE, "        return quote(unicodedata.normalize(\"NFKC\", str(value)), safe=" + _SAFE + ")")]},
+    {"name": "matched-text-stripped-in-to-python", "expect": "R4.2", "edits": [(C, "    def to_python(self, value: str) -> t.Any:\n        return value\n", "    def to_python(self, value: str) -> t.Any:\n        return value.strip()\n")]},
     {"name": "to-python-skips-number-conversion", "expect": "R4.2", "edits": [(C, "        value_num = self.num_convert(value)\n", "        value_num = value\n")]},
     # R4.3 ---------------------------------------------------------------------------------------------------------
     {"name": "default-resolved-with-str", "expect": "R4.3", "edits": [(R, _DEFAULT_RESOLVE, "                data = str(defaults[data])")]},
@@ -195,6 +198,7 @@ MUTANTS = [
     {"name": "build-compare-key-prefers-fewer-arguments", "expect": "R4.7", "edits": [(R, "        return (1 if self.alias else 0, -len(self.arguments), -len(self.defaults or ()))", "        return (1 if self.alias else 0, len(self.arguments), -len(self.defaults or ()))")]},
     {"name": "compile-does-not-merge-slashes", "expect": "R4.3", "edits": [(R, "            rule = re.sub(\"/{2,}?\", \"/\", self.rule)", "            rule = self.rule")]},
     {"name": "compare-key-ranks-defaults-before-arguments", "expect": "R4.7", "edits": [(R, "        return (1 if self.alias else 0, -len(self.arguments), -len(self.defaults or ()))", "        return (1 if self.alias else 0, -len(self.defaults or ()), -len(self.arguments))")]},
+    {"name": "host-matching-fallback-takes-the-last-suitable-rule", "expect": "R4.7", "edits": [(M, "                        elif first_match is None:\n                            first_match = rv\n", "                        else:\n                            first_match = rv\n")]},
     {"name": "empty-copy-loses-defaults", "expect": "R4.7", "edits": [(R, "            defaults=defaults,\n", "            defaults=None,\n")]},
     {"name": "subdomain-factory-forgets-subdomain", "expect": "R4.7", "edits": [(R, "                rule.subdomain = self.subdomain\n", "                pass\n")]},
 ]
@@ -337,5 +341,13 @@ TWINS = [
          "        if (factory := self.map.converters.get(converter_name)) is None:\n            raise LookupError(f\"the converter {converter_name!r} does not exist\")\n        return factory(self.map, *args, **kwargs)"),
         (C, "class ValidationError(ValueError):", "_DIGITS = r\"\\d+\"\n\n\nclass ValidationError(ValueError):"),
         (C, "    regex = r\"\\d+\"\n", "    regex = _DIGITS\n"),
+    ]},
+    {"name": "value-encoded-to-utf8-bytes-before-quoting", "edits": [
+        (C, _CONV_QUOTE, "        raw = str(value).encode(\"utf-8\")\n        return quote(raw, safe=" + _SAFE + ")"),
+    ]},
+    {"name": "host-matching-fallback-collected-in-a-list", "edits": [
+        (M, "        first_match = None\n\n        for rule in self.map._rules_by_endpoint.get(endpoint, ()):", "        elsewhere = []\n\n        for rule in self.map._rules_by_endpoint.get(endpoint, ()):"),
+        (M, "                        elif first_match is None:\n                            first_match = rv\n", "                        elsewhere.append(rv)\n"),
+        (M, "        return first_match\n", "        return elsewhere[0] if elsewhere else None\n"),
     ]},
 ]
